@@ -1,7 +1,9 @@
-"""C20 — room synchronisation locks: exclusive, bounded, never lost (grant step).
-Entry point from MIR: RoomLockService::acquire_lock (an async fn without suspension point: its
-coroutine body is polled once and must be Ready).  One inductive step from an arbitrary state
-satisfying the representation invariant."""
+"""C20 — room synchronisation locks: exclusive, bounded, never lost.
+(a) grant step: RoomLockService::acquire_lock (an async fn without suspension point: its coroutine body is polled once and
+    must be Ready), one inductive step from an arbitrary state satisfying the representation invariant;
+(b) service loop: RoomLockService::start is executed, the task it spawns is captured and polled with a scripted queue of
+    RequestLock / Unlock messages (symbolic peers, rooms, limit, receiver liveness): request merging, unlock handling and the
+    grant loop are all the real code, from the initial state, checked against a specification folded over the grants."""
 import itertools
 import z3
 from mirsym.interp import *
@@ -14,18 +16,44 @@ PEERS = [S(lit=(b'P%d' % i).ljust(32, b'p')) for i in (1, 2, 3)]
 REQUIRED_WITNESSES = ['grant', 'no-grant']
 BOUNDS = {
     'quick': '1-3 queued peers with 1-3 requested rooms each (rooms symbolic in {R1,R2,R3}, distinct inside a request), 0-2 rooms already locked (symbolic), '
-             'free slots a symbolic usize >= 1, every reply channel alive or dropped (symbolic per send); one call, plus two consecutive calls from 2 free slots',
-    'thorough': 'same with every request-size combination up to (3,3,3) and 0-3 locked rooms',
+             'free slots a symbolic usize >= 1, every reply channel alive or dropped (symbolic per send); one call, plus two consecutive calls from 2 free slots; '
+             'service loop: 13 message scripts of 1-4 messages (requests of 1-2 rooms, unlocks) from the initial state, peers symbolic in {P1,P2}, rooms symbolic in '
+             '{R1,R2,R3} (unlocks of rooms that are not held and double unlocks included), limit symbolic in {1,2}, every reply channel alive or dropped per send',
+    'thorough': 'same with every request-size combination up to (3,3,3) and 0-3 locked rooms; 27 scripts of up to 5 messages, requests of up to 3 rooms',
 }
 ASSUMPTIONS = [
     'representation invariant assumed on entry: peer_queue holds exactly the keys of peer_lock_request without duplicates; free slots >= 1 (what both callers guarantee)',
     'UnboundedSender::send = "deliver to the grant list of the peer, or fail because the peer dropped its receiver": both outcomes symbolic, a dropped receiver stays dropped',
-    'the request / unlock handlers themselves are inline in a spawned task (multi-state coroutine over mpsc::Receiver) and are outside; their two call patterns '
-    'are re-stated in the driver (driver code, not real code)',
+    'service loop: mpsc::Receiver::recv is replaced by the scripted queue (the next message is always ready until the script ends); tokio::spawn hands the task to the driver; '
+    'connections, room synchronisation tasks and the release on disconnection in peer_inbound_service are outside',
+    'liveness is checked in its bounded safety form: after every completely handled message no free slot coexists with a requested room that nobody holds',
 ]
 
 
+SCRIPTS = {
+    'quick': ['Q1', 'Q2', 'Q1Q1', 'Q2Q1', 'Q1U', 'Q2U', 'Q1Q1U', 'Q1UQ1', 'Q1UU', 'Q2Q1U', 'Q1Q1UU', 'Q1UQ1U', 'Q2UQ1'],
+    'thorough': ['Q1', 'Q2', 'Q3', 'Q1Q1', 'Q2Q1', 'Q1Q2', 'Q2Q2', 'Q1U', 'Q2U', 'Q3U', 'Q1Q1U', 'Q2Q2U', 'Q1UQ1', 'Q2UQ2', 'Q1UU', 'Q2UU', 'Q2Q1U', 'Q1Q1UU', 'Q2Q2UU',
+                 'Q1UQ1U', 'Q2UQ1', 'Q1Q1Q1', 'Q1Q1Q1U', 'Q1Q1UQ1', 'Q2Q1UU', 'Q1Q1UUQ1', 'Q1Q2UUU'],
+}
+
+
+def parse_script(text):
+    out, i = [], 0
+    while i < len(text):
+        if text[i] == 'Q':
+            out.append(('request', int(text[i + 1])))
+            i += 2
+        else:
+            out.append(('unlock', 0))
+            i += 1
+    return out
+
+
 def shapes(tier):
+    return step_shapes(tier) + [dict(part='service', script=t) for t in SCRIPTS[tier]]
+
+
+def step_shapes(tier):
     sizes = [(1,), (2,), (3,), (1, 1), (2, 1), (1, 2), (2, 2), (1, 1, 1), (2, 2, 1)]
     if tier == 'thorough':
         sizes = [s for n in (1, 2, 3) for s in itertools.product((1, 2, 3), repeat=n)]
@@ -81,6 +109,8 @@ def in_set(room, rooms):
 
 
 def explore(ctx, shape, tier, report):
+    if shape['part'] == 'service':
+        return explore_service(ctx, shape, tier, report)
     al = ctx.method('RoomLockService', 'acquire_lock')
     grants = []
     install_send(ctx, grants)
@@ -179,7 +209,202 @@ def explore(ctx, shape, tier, report):
     ctx.explore(path)
 
 
+# ------------------------------------------------------------------------------------------------ the service loop
+
+def explore_service(ctx, shape, tier, report):
+    """RoomLockService::start is executed from MIR; the task it spawns is captured and polled with a scripted message queue:
+    the whole request / unlock handling and the grant loop are the real code, from the initial state."""
+    from mirsym.models import SegmentEnd
+    start = ctx.method('RoomLockService', 'start')
+    script = parse_script(shape['script'])
+    st = {}
+    events = []
+
+    def m_channel(ctx_, args, ci, dt):
+        return tup(Opaque('lock-sender'), Opaque('lock-receiver'))
+
+    def m_spawn(ctx_, args, ci, dt):
+        st['task'] = args[0]
+        return Opaque('join-handle')
+
+    def m_recv(ctx_, args, ci, dt):
+        if st['next'] >= len(st['messages']):
+            raise SegmentEnd('no more messages')
+        msg = st['messages'][st['next']]
+        events.append(('msg', st['next']))
+        st['next'] += 1
+        return Opaque('ready-future', some(msg))
+
+    def m_send(ctx_, args, ci, dt):
+        sender = deref(args[0])
+        room = args[1]
+        chan = sender.data
+        if chan['dead']:
+            events.append(('send', chan, room, False))
+            return err(Struct('SendError', [Cell(room)]))
+        if ctx_.branch(ctx_.fresh_bool('receiver_alive')):
+            events.append(('send', chan, room, True))
+            return ok(UNIT)
+        chan['dead'] = True
+        events.append(('send', chan, room, False))
+        return err(Struct('SendError', [Cell(room)]))
+    models = {'mpsc::channel': m_channel, 'channel': m_channel, 'tokio::spawn': m_spawn, 'spawn': m_spawn, 'Receiver::recv': m_recv, 'UnboundedSender::send': m_send}
+    saved = {k: ctx.models.get(k) for k in models}
+    ctx.models.update(models)
+
+    def path(ctx):
+        w = World(ctx)
+        del events[:]
+        st.clear()
+        maxl = ctx.fresh_int('max_lock', 'usize')
+        ctx.add(z3.And(z3.UGE(maxl.v, 1), z3.ULE(maxl.v, 2)))
+        variants = [v[0] for v in w.src.enum_variants('SyncLockMessage')]
+        msgs, spec = [], []
+        for i, (kind, n) in enumerate(script):
+            if kind == 'request':
+                peer = w.atom('m%d_peer' % i, PEERS[:2], 'bytes', n=32)
+                rooms = [w.atom('m%d_room%d' % (i, k), ROOMS, 'uid', n=16) for k in range(n)]
+                for a, b in itertools.combinations(rooms, 2):
+                    ctx.add(znot(seq(a, b)))
+                chan = dict(msg=i, dead=False)
+                msgs.append(Enum('SyncLockMessage', variants.index('RequestLock'), 'RequestLock', [Cell(peer), Cell(VecV([Cell(r) for r in rooms])), Cell(Opaque('sender', chan))]))
+                spec.append(dict(kind='request', peer=peer, rooms=rooms, chan=chan))
+            else:
+                room = w.atom('m%d_room' % i, ROOMS, 'uid', n=16)
+                msgs.append(Enum('SyncLockMessage', variants.index('Unlock'), 'Unlock', [Cell(room)]))
+                spec.append(dict(kind='unlock', room=room))
+        st['messages'], st['next'] = msgs, 0
+        info = dict(part='service', shape=shape, spec=spec, maxl=maxl, events=events)
+        try:
+            ctx.exec_fn(start, [maxl])
+            task = st.get('task')
+            if not isinstance(task, Coroutine):
+                raise Inconclusive('RoomLockService::start no longer spawns one task')
+            try:
+                ctx.poll(task)
+                raise Inconclusive('the lock task ended although its channel is open')
+            except SegmentEnd:
+                pass
+        except Panic as p:
+            report.panic(ctx, w, p, info)
+            return
+        if st['next'] != len(msgs):
+            raise Inconclusive('the lock task did not consume every message')
+        grants = [e for e in events if e[0] == 'send' and e[3]]
+        report.path(bool(grants))
+        report.witness('grant' if grants else 'no-grant')
+        report.want_sample(bool(grants))
+        if True:        # few paths: each is also run on the real service
+            ms = ctx.check_sat(True)
+            if ms is not None:
+                report.sample(service_scenario(ctx, ms, 'sample', info))
+        # the specification, folded over the observed events; everything is a formula over the three room names
+        F, T = z3.BoolVal(False), z3.BoolVal(True)
+        held = {R.lit: F for R in ROOMS}
+        pending = {P.lit: {R.lit: F for R in ROOMS} for P in PEERS[:2]}
+        is_room = lambda r, R: seq(r, R)
+        count = lambda: z3.Sum([z3.If(held[R.lit], 1, 0) for R in ROOMS])
+        maxi = z3.BV2Int(maxl.v)
+        conds = []
+
+        def settle(after):
+            # a message has been handled completely: no free slot may coexist with a requested room that nobody holds
+            for P in PEERS[:2]:
+                for R in ROOMS:
+                    conds.append(('after message %d: a requested room is free and a slot is free, yet it was not granted' % after,
+                                  zor(count() >= maxi, znot(pending[P.lit][R.lit]), held[R.lit])))
+        cur = None
+        for e in events:
+            if e[0] == 'msg':
+                if cur is not None:
+                    settle(cur)
+                cur = e[1]
+                m = spec[cur]
+                if m['kind'] == 'request':
+                    for P in PEERS[:2]:
+                        for R in ROOMS:
+                            pending[P.lit][R.lit] = zor(pending[P.lit][R.lit], zand(seq(m['peer'], P), zor(*[is_room(r, R) for r in m['rooms']])))
+                else:
+                    for R in ROOMS:
+                        held[R.lit] = zand(held[R.lit], znot(is_room(m['room'], R)))
+            else:
+                _, chan, room, okk = e
+                owner = spec[chan['msg']]['peer']
+                if okk:
+                    conds.append(('a room is granted while another connection holds it', zand(*[zor(znot(is_room(room, R)), znot(held[R.lit])) for R in ROOMS])))
+                    conds.append(('a room is granted that the connection is not waiting for',
+                                  zor(*[zand(seq(owner, P), is_room(room, R), pending[P.lit][R.lit]) for P in PEERS[:2] for R in ROOMS])))
+                    for R in ROOMS:
+                        held[R.lit] = zor(held[R.lit], is_room(room, R))
+                    conds.append(('more rooms are granted than the limit', count() <= maxi))
+                for P in PEERS[:2]:
+                    for R in ROOMS:
+                        pending[P.lit][R.lit] = zand(pending[P.lit][R.lit], znot(zand(seq(owner, P), is_room(room, R))))
+        if cur is not None:
+            settle(cur)
+        for label, c in conds:
+            m = ctx.check_sat(znot(c))
+            if m is not None:
+                info['problem'] = label
+                report.violation(ctx, m, 'lock-service', info)
+                return
+
+    try:
+        ctx.explore(path)
+    finally:
+        for k, v in saved.items():
+            if v is None:
+                ctx.models.pop(k, None)
+            else:
+                ctx.models[k] = v
+
+
+def service_scenario(ctx, m, kind, info):
+    c = Concretizer(m)
+    msgs = []
+    unreplayable = []
+    for i, sp in enumerate(info['spec']):
+        if sp['kind'] == 'request':
+            # when does the receiver of this request's channel go away ?  (before the message during which the first send fails)
+            drop_at, cur_msg, ok_in_msg = None, None, {}
+            for e in info['events']:
+                if e[0] == 'msg':
+                    cur_msg = e[1]
+                elif e[1] is sp['chan']:
+                    if e[3]:
+                        ok_in_msg[cur_msg] = True
+                    elif drop_at is None:
+                        drop_at = cur_msg
+                        if ok_in_msg.get(cur_msg):
+                            unreplayable.append('a receiver is dropped between two grants of one message')
+            msgs.append(dict(kind='request', peer=c.atom(sp['peer']), rooms=[c.atom(r) for r in sp['rooms']], drop_before_message=drop_at))
+        else:
+            msgs.append(dict(kind='unlock', room=c.atom(sp['room'])))
+    # grants observed after each message, in order
+    per, cur = [[] for _ in msgs], None
+    for e in info['events']:
+        if e[0] == 'msg':
+            cur = e[1]
+        elif e[3]:
+            per[cur].append([c.atom(info['spec'][e[1]['msg']]['peer']), c.atom(e[2])])
+    sc = dict(kind='lock_service', property='C20', max_lock=c.int(info['maxl']), messages=msgs, script=info['shape']['script'])
+    if kind == 'panic':
+        sc['expect'] = dict(result='panic')
+        return sc
+    sc['expect'] = dict(grants=[sorted(x) for x in per])
+    sc['preferred'] = not unreplayable
+    if unreplayable:
+        sc['skip_native'] = unreplayable[0]
+    if kind != 'sample':
+        sc['what'] = 'RoomLockService: %s' % info.get('problem')
+        import re as _re
+        sc['signature'] = 'lock-service:%s' % _re.sub(r'after message \d+: ', '', info.get('problem') or '')
+    return sc
+
+
 def scenario(ctx, m, kind, info):
+    if info.get('part') == 'service':
+        return service_scenario(ctx, m, kind, info)
     c = Concretizer(m)
     peers = []
     alive = {}
